@@ -123,6 +123,7 @@ class RealPipe:
         self.fault_fired = None
         self.client_closed = threading.Event()
         self.ended = threading.Event()
+        self.half_closed = threading.Event()  # the server has sent its FIN (it is queued at the client's socket from then on)
         self.server_closed_first = False
         self.was_reset = False
         self.stalled = False
@@ -491,6 +492,7 @@ class RealNet:
                     pipe.sock.shutdown(socket.SHUT_WR)
                 except OSError:
                     pass
+                pipe.half_closed.set()
                 return "half-closed"
         return None
 
@@ -572,6 +574,14 @@ class RealNet:
     def __exit__(self, *a):
         socket.getaddrinfo = _ORIG_GETADDRINFO
         self.stop()
+
+    def wait_server_closes(self, timeout=5.0):
+        """Block until every close the peer models have asked for has reached the wire (the FIN is then queued at the client's socket). Lets a
+        scenario say 'the server closed the idle connection BEFORE the next request' without relying on timing."""
+        deadline = time.monotonic() + timeout
+        for p in list(self.pipes):
+            if p.closing and not p.was_reset and not p.aborted and not p.ended.is_set():
+                p.half_closed.wait(max(0.0, deadline - time.monotonic()))
 
     def wait_client_closed(self, timeout=3.0):
         """After the client has closed its pool: every connection the server did not end itself must see the client's close."""
